@@ -1,5 +1,400 @@
-import Solvor.Path.Model
-/-! Path: property theorems only (helper lemmas live in Lemmas.lean). -/
+import Solvor.Path.Lemmas
+import Solvor.Path.BellmanFord
+import Solvor.Path.Search
+import Solvor.Path.Sqrt2
+/-!
+Path: the property theorems of C11 (helper lemmas are in `Lemmas.lean`, `BellmanFord.lean`,
+`Search.lean`).
+
+Specification vocabulary (`Model.lean`): `Walk E u t c` — a walk from `u` to `t` along edges of the
+edge list `E` whose weights sum to `c`; `Reach E s t`; `IsDist E s t c` — `c` is the weight of a
+walk and no walk is lighter; `IsGoalDist E s T c` — the same towards a goal set `T` (goal given as a
+value: `T = [t]`; as a predicate: the nodes satisfying it).
+-/
 namespace Solvor.Path
+set_option linter.unusedSectionVars false
+open Solvor.Gen (Status)
+
+section certificates
+variable {W : Type} [Add W] [Zero W] [LE W] [DecidableLE W] [DecidableEq W] [OrdW W]
+
+/-! ## T-spec: certificate theorems (for every graph, every candidate answer) -/
+
+/-- C11 `potential_lower_bound`: if `d s = 0` and `d v ≤ d u + w` along every edge `(u, v, w)` (the
+Bool checker `feasible`), then `d t` is finite and at most the weight of every walk from `s` to `t`. -/
+theorem potential_lower_bound {E : List (Edge W)} {d : Tab W} {s t : Nat} {c : W}
+    (hf : feasible E d = true) (hs : look d s = some 0) (hw : Walk E s t c) :
+    ∃ b, look d t = some b ∧ b ≤ c := by
+  obtain ⟨b, hb, hle⟩ := potential_walk hf hw 0 hs
+  exact ⟨b, hb, by rwa [OrdW.zero_add] at hle⟩
+
+example : feasible [((0 : Nat), (1 : Nat), (2 : Int)), (1, 2, -1), (0, 2, 5), (2, 2, 0)] [some 0, some 2, some 1] = true ∧
+    look ([some 0, some 2, some 1] : Tab Int) 0 = some 0 := by decide
+
+/-- the Bool checker `lowerCert` is sound: every walk from `s` into the goal set weighs at least `c` -/
+theorem lowerCert_sound {E : List (Edge W)} {s : Nat} {T : List Nat} {pot : Tab W} {c : W}
+    (h : lowerCert E s T pot c = true) : ∀ t ∈ T, ∀ c', Walk E s t c' → c ≤ c' := by
+  unfold lowerCert at h
+  simp only [Bool.and_eq_true, beq_iff_eq, List.all_eq_true] at h
+  obtain ⟨⟨hf, hs⟩, hT⟩ := h
+  intro t ht c' hw
+  obtain ⟨b, hb, hle⟩ := potential_lower_bound hf hs hw
+  have := hT t ht
+  simp only [hb, decide_eq_true_eq] at this
+  exact OrdW.le_trans this hle
+
+omit [OrdW W] in
+/-- C11 `path_upper_bound`: a path accepted by the Bool checker `pathOK` starts at `s`, ends at a goal
+node, uses only existing edges, and is a walk whose weights sum to the reported `cost`. -/
+theorem path_upper_bound {E : List (Edge W)} {s : Nat} {T : List Nat} {path : List Nat} {cost : W}
+    (h : pathOK E s T path cost = true) :
+    ∃ t ∈ T, path.head? = some s ∧ path.getLast? = some t ∧ pathCost E path = some cost ∧ Walk E s t cost := by
+  unfold pathOK at h
+  simp only [Bool.and_eq_true, beq_iff_eq] at h
+  obtain ⟨⟨hh, hl⟩, hc⟩ := h
+  cases path with
+  | nil => simp at hh
+  | cons u p =>
+    simp only [List.head?_cons, Option.some.injEq] at hh
+    subst hh
+    have hw := pathCost_walk p u cost hc
+    rw [List.getLast?_eq_some_getLast (List.cons_ne_nil _ _)] at hl
+    simp only [List.contains_iff_mem] at hl
+    exact ⟨_, hl, rfl, List.getLast?_eq_some_getLast _, hc, hw⟩
+
+example : pathOK [((0 : Nat), (1 : Nat), (2 : Int)), (0, 1, 1), (1, 2, -1), (0, 2, 5)] 0 [2] [0, 1, 2] 0 = true := by decide
+
+/-- C11 `dist_exact_cert`: an answer accepted by `distCert` (potential + path) is exact: `cost` is the
+least weight of a walk from `s` into the goal set, and the returned path is such a walk. -/
+theorem dist_exact_cert {E : List (Edge W)} {s : Nat} {T : List Nat} {pot : Tab W} {path : List Nat} {cost : W}
+    (h : distCert E s T pot path cost = true) :
+    IsGoalDist E s T cost ∧
+      ∃ t ∈ T, path.head? = some s ∧ path.getLast? = some t ∧ pathCost E path = some cost ∧ IsDist E s t cost := by
+  unfold distCert at h
+  rw [Bool.and_eq_true] at h
+  obtain ⟨t, ht, hh, hl, hc, hw⟩ := path_upper_bound h.2
+  have hlow := lowerCert_sound h.1
+  exact ⟨⟨⟨t, ht, hw⟩, hlow⟩, t, ht, hh, hl, hc, hw, hlow t ht⟩
+
+example : distCert [((0 : Nat), (1 : Nat), (2 : Int)), (0, 1, 1), (1, 2, -1), (0, 2, 5)] 0 [2]
+    [some 0, some 1, some 0] [0, 1, 2] 0 = true := by decide
+
+omit [LE W] [DecidableLE W] [DecidableEq W] [OrdW W] in
+/-- C11 `closed_set_unreachable`: a set containing `s`, closed under the edges and containing no goal
+node (Bool checker `unreachCert`) shows that no goal node is reachable. -/
+theorem closed_set_unreachable {E : List (Edge W)} {s : Nat} {T S : List Nat}
+    (h : unreachCert E s T S = true) : ∀ t ∈ T, ¬ Reach E s t := by
+  unfold unreachCert at h
+  simp only [Bool.and_eq_true, List.all_eq_true, List.contains_iff_mem, Bool.not_eq_eq_eq_not,
+    Bool.not_true] at h
+  obtain ⟨⟨hs, hc⟩, hT⟩ := h
+  rintro t ht ⟨c, hw⟩
+  have := hT t ht
+  simp only [List.contains_eq_mem, decide_eq_false_iff_not] at this
+  exact this (closed_walk hc hw hs)
+
+example : unreachCert [((0 : Nat), (1 : Nat), (2 : Int)), (1, 0, 1), (2, 1, 1)] 0 [2] [0, 1] = true := by decide
+
+end certificates
+
+/-- C11 `neg_cycle_cert`: a certificate accepted by `negCycleCert` (a path from `s` to `x` and a closed
+path through `x` of negative weight) shows that a negative cycle is reachable from `s`, hence that
+walks from `s` to `x` of arbitrarily small weight exist (no finite shortest distance). -/
+theorem neg_cycle_cert {E : List (Edge Int)} {s : Nat} {p cyc : List Nat} (h : negCycleCert E s p cyc = true) :
+    ∃ x, Reach E s x ∧ (∃ c, c < 0 ∧ Walk E x x c) ∧ ∀ B : Int, ∃ w, Walk E s x w ∧ w < B := by
+  unfold negCycleCert at h
+  simp only [Bool.and_eq_true, beq_iff_eq] at h
+  obtain ⟨⟨⟨⟨⟨hh, hp⟩, hpl⟩, hcl⟩, hcs⟩, hneg⟩ := h
+  cases p with
+  | nil => simp at hh
+  | cons u p =>
+    simp only [List.head?_cons, Option.some.injEq] at hh
+    subst hh
+    cases cyc with
+    | nil => simp at hcs
+    | cons x cyc =>
+      obtain ⟨a, ha⟩ := Option.isSome_iff_exists.mp hp
+      have hw1 := pathCost_walk p u a ha
+      rw [List.getLast?_eq_some_getLast (List.cons_ne_nil _ _)] at hpl
+      simp only [List.head?_cons, Option.some.injEq] at hpl
+      rw [hpl] at hw1
+      cases hcc : pathCost E (x :: cyc) with
+      | none => simp [hcc] at hneg
+      | some c =>
+        simp only [hcc, decide_eq_true_eq] at hneg
+        have hw2 := pathCost_walk cyc x c hcc
+        rw [List.getLast?_eq_some_getLast (List.cons_ne_nil _ _)] at hcl
+        simp only [List.head?_cons, Option.some.injEq] at hcl
+        rw [← hcl] at hw2
+        exact ⟨x, ⟨a, hw1⟩, ⟨c, hneg, hw2⟩, neg_cycle_unbounded hw1 hw2 hneg⟩
+
+example : negCycleCert [((0 : Nat), (1 : Nat), (1 : Int)), (1, 2, -3), (2, 1, 1)] 0 [0, 1] [1, 2, 1] = true := by decide
+
+/-! ## T-model: Bellman-Ford (`solvor/bellman_ford.py`), for every input -/
+
+/-- C11 `bellman_ford_correct` [C].  For every edge list (duplicates, self loops, negative weights,
+endpoints not even required to be in range), start `s < n` and optional target: if the mirror of
+`bellman_ford` does not answer UNBOUNDED then
+* every finite entry of `dist` is the exact shortest-path distance, every infinite entry belongs to
+  an unreachable node, and no negative cycle is reachable from `s` (so: a reachable negative
+  cycle ⇒ UNBOUNDED);
+* in target mode INFEASIBLE is answered exactly when the target is unreachable, the reported
+  objective is the exact distance, and the returned path is accepted by the checker `pathOK`:
+  it starts at `s`, ends at the target, uses existing edges and its weights sum to the objective.
+(The converse "UNBOUNDED ⇒ a negative cycle is reachable" is `bf_rounds_bound` [S]; on every explored
+input it is decided by `neg_cycle_cert` on the cycle the model extracts.) -/
+theorem bellman_ford_correct (n : Nat) (E : List (Edge Int)) (s : Nat) (target : Option Nat) (hs : s < n)
+    (hnu : (bellmanFord n E s target).status ≠ .UNBOUNDED) :
+    (∀ v c, look (bellmanFord n E s target).dist v = some c → IsDist E s v c) ∧
+    (∀ v, look (bellmanFord n E s target).dist v = none → ¬ Reach E s v) ∧
+    (∀ x c, Reach E s x → Walk E x x c → 0 ≤ c) ∧
+    (target = none → (bellmanFord n E s target).status = .OPTIMAL) ∧
+    (∀ t, target = some t →
+      ((bellmanFord n E s target).status = .INFEASIBLE ↔ ¬ Reach E s t) ∧
+      ((bellmanFord n E s target).status = .OPTIMAL ↔ Reach E s t) ∧
+      (∀ c, (bellmanFord n E s target).cost = some c → IsDist E s t c) ∧
+      (∀ p, (bellmanFord n E s target).path = some p →
+        ∃ c, (bellmanFord n E s target).cost = some c ∧ pathOK E s [t] p c = true)) := by
+  have inv := bfInv_rounds (E := E) (n - 1) (bfInit n s) (bfInv_init E hs)
+  unfold bellmanFord at hnu ⊢
+  generalize bfRounds E (n - 1) (bfInit n s) = st at inv hnu ⊢
+  by_cases hany : E.any (relaxable st.dist) = true
+  · simp [bfFinish, hany] at hnu
+  · have hany' : E.any (relaxable st.dist) = false := by simpa using hany
+    have F := bfFinal_of_inv inv hany'
+    have hdist : (bfFinish n E st target).dist = st.dist := by
+      simp only [bfFinish, hany']
+      cases target with
+      | none => rfl
+      | some t => simp only []; cases look st.dist t <;> rfl
+    have exact : ∀ v c, look st.dist v = some c → IsDist E s v c := by
+      intro v c h
+      refine ⟨F.real v c h, fun c' hw => ?_⟩
+      obtain ⟨b, hb, hle⟩ := potential_lower_bound F.feas F.start0 hw
+      rw [h] at hb; cases hb; exact hle
+    have unreach : ∀ v, look st.dist v = none → ¬ Reach E s v := by
+      rintro v h ⟨c, hw⟩
+      obtain ⟨b, hb, _⟩ := potential_lower_bound F.feas F.start0 hw
+      rw [h] at hb; cases hb
+    refine ⟨by rw [hdist]; exact exact, by rw [hdist]; exact unreach, ?_, ?_, ?_⟩
+    · rintro x c ⟨a, hw⟩ hc
+      obtain ⟨b, hb, _⟩ := potential_lower_bound F.feas F.start0 hw
+      obtain ⟨b', hb', hle⟩ := potential_walk F.feas hc b hb
+      rw [hb] at hb'; cases hb'; omega
+    · intro ht; subst ht; simp [bfFinish, hany']
+    · intro t ht
+      subst ht
+      cases hd : look st.dist t with
+      | none =>
+        have hr : bfFinish n E st (some t) = ⟨.INFEASIBLE, st.dist, st.par, none, none⟩ := by
+          simp [bfFinish, hany', hd]
+        rw [hr]
+        refine ⟨⟨fun _ => unreach t hd, fun _ => rfl⟩, ⟨fun h => (by cases h), fun h => absurd h (unreach t hd)⟩, ?_, ?_⟩
+        · intro c h; cases h
+        · intro p h; cases h
+      | some c =>
+        have hr : bfFinish n E st (some t) = ⟨.OPTIMAL, st.dist, st.par, reconIdx st.par (n + 1) t [], some c⟩ := by
+          simp [bfFinish, hany', hd]
+        rw [hr]
+        have hreach : Reach E s t := ⟨c, F.real t c hd⟩
+        refine ⟨⟨fun h => (by cases h), fun h => absurd hreach h⟩, ⟨fun _ => hreach, fun _ => rfl⟩, ?_, ?_⟩
+        · intro c' h; cases h; exact exact t c hd
+        · intro p h
+          obtain ⟨h1, h2, h3⟩ := recon_final F (n + 1) t [] p c 0 h hd (by simp [pathCost])
+          refine ⟨c, rfl, ?_⟩
+          simp only [pathOK, h1, h2, h3, Int.add_zero]
+          simp
+
+example : (bellmanFord 4 [(0, 1, 4), (0, 2, 1), (2, 1, -2), (1, 3, 1), (3, 3, 0), (2, 1, 5)] 0 (some 3)).status ≠ .UNBOUNDED ∧
+    (bellmanFord 4 [(0, 1, 4), (0, 2, 1), (2, 1, -2), (1, 3, 1), (3, 3, 0), (2, 1, 5)] 0 (some 3)).path = some [0, 2, 1, 3] ∧
+    (bellmanFord 4 [(0, 1, 4), (0, 2, 1), (2, 1, -2), (1, 3, 1), (3, 3, 0), (2, 1, 5)] 0 (some 3)).cost = some 0 := by
+  decide
+
+/-! ## T-model: DFS and BFS (`solvor/bfs.py`), for every input
+
+Nodes are `0..n-1` (`hE`: every edge head is `< n`, `hs`: so is the start); `unitE E` is the unweighted
+graph (every edge of weight 1), so the weight of a walk is its number of edges. -/
+
+section searches
+variable {W : Type}
+
+/-- C11 `dfs_path_valid` [C].  For the mirror of `dfs` in goal mode, with any `max_iter`:
+* FEASIBLE comes with a path accepted by `pathOK`: it starts at `s`, ends at a goal node, follows
+  existing edges, and the objective is its number of edges (`len(path) - 1`);
+* INFEASIBLE is answered only if no goal node is reachable;
+* MAX_ITER is impossible once `max_iter` exceeds the number of nodes — hence, then, *a genuine path
+  is returned whenever one exists*. -/
+theorem dfs_path_valid (n : Nat) (E : List (Edge W)) (s : Nat) (T : List Nat) (maxIter : Nat)
+    (hs : s < n) (hE : ∀ e ∈ E, e.2.1 < n) :
+    ((dfs n E s T false maxIter).status = .FEASIBLE →
+      ∃ p c, (dfs n E s T false maxIter).path = some p ∧ (dfs n E s T false maxIter).cost = some c ∧
+        c + 1 = p.length ∧ pathOK (unitE E) s T p (c : Int) = true) ∧
+    ((dfs n E s T false maxIter).status = .INFEASIBLE → ∀ t ∈ T, ¬ Reach (unitE E) s t) ∧
+    (n < maxIter → (dfs n E s T false maxIter).status ≠ .MAX_ITER) ∧
+    (n < maxIter → (∃ t ∈ T, Reach (unitE E) s t) → (dfs n E s T false maxIter).status = .FEASIBLE) := by
+  have h := search_outcome (E := E) (isGoal := fun v => T.contains v) pushOK_dfs hs hE (fun _ => True) trivial
+    (fun _ _ _ _ _ _ _ => trivial) maxIter
+  have hd : dfs n E s T false maxIter = searchResult .FEASIBLE false
+      (searchLoop (discW (fun fr nb => nb :: fr)) (succOf E) (fun v => T.contains v) maxIter (searchInit n s)) := by
+    simp only [dfs, dfsRun, dfsDiscover_eq, Bool.not_false, Bool.true_and]
+  rw [hd]
+  cases hout : searchLoop (discW (fun fr nb => nb :: fr)) (succOf E) (fun v => T.contains v) maxIter (searchInit n s) with
+  | found cur st' =>
+    rw [hout] at h
+    obtain ⟨st0, rest, inv, _, hf, hg, rfl⟩ := h
+    obtain ⟨p, k, hres, _, hlen, hok⟩ := result_found .FEASIBLE inv hf hg
+    rw [hres]
+    exact ⟨fun _ => ⟨p, k, rfl, rfl, hlen, hok⟩, fun h => (by cases h), fun _ h => (by cases h), fun _ _ => rfl⟩
+  | exhausted st' =>
+    rw [hout] at h
+    have hun := result_exhausted h.1 h.2
+    simp only [searchResult, Bool.false_eq_true, if_false]
+    refine ⟨fun h => (by cases h), fun _ t ht => hun t (by simpa using ht), fun _ h => (by cases h), ?_⟩
+    rintro _ ⟨t, ht, hr⟩
+    exact absurd hr (hun t (by simpa using ht))
+  | cutoff st' =>
+    rw [hout] at h
+    simp only [searchResult, Bool.false_eq_true, if_false]
+    exact ⟨fun h => (by cases h), fun h => (by cases h), fun hlt => absurd hlt h.2, fun hlt => absurd hlt h.2⟩
+
+example : (dfs 4 [((0 : Nat), (1 : Nat), ()), (0, 2, ()), (2, 3, ()), (1, 0, ())] 0 [3] false 10).status = .FEASIBLE ∧
+    (dfs 4 [((0 : Nat), (1 : Nat), ()), (0, 2, ()), (2, 3, ()), (1, 0, ())] 0 [3] false 10).path = some [0, 2, 3] := by
+  decide
+
+/-- C11 `bfs_correct` [C].  For the mirror of `bfs` in goal mode, with any `max_iter`:
+* OPTIMAL comes with a path accepted by `pathOK` (starts at `s`, ends at a goal node, follows
+  existing edges), the objective is its number of edges, and that number is the **hop distance**:
+  no walk from `s` to any goal node has fewer edges;
+* INFEASIBLE is answered only if no goal node is reachable; with `max_iter` above the number of nodes
+  MAX_ITER is impossible, so INFEASIBLE ⇔ unreachable and OPTIMAL ⇔ reachable. -/
+theorem bfs_correct (n : Nat) (E : List (Edge W)) (s : Nat) (T : List Nat) (maxIter : Nat)
+    (hs : s < n) (hE : ∀ e ∈ E, e.2.1 < n) :
+    ((bfs n E s T false maxIter).status = .OPTIMAL →
+      ∃ p c, (bfs n E s T false maxIter).path = some p ∧ (bfs n E s T false maxIter).cost = some c ∧
+        c + 1 = p.length ∧ pathOK (unitE E) s T p (c : Int) = true ∧ IsGoalDist (unitE E) s T (c : Int)) ∧
+    ((bfs n E s T false maxIter).status = .INFEASIBLE → ∀ t ∈ T, ¬ Reach (unitE E) s t) ∧
+    (n < maxIter → (bfs n E s T false maxIter).status ≠ .MAX_ITER) ∧
+    (n < maxIter → ((bfs n E s T false maxIter).status = .INFEASIBLE ↔ ∀ t ∈ T, ¬ Reach (unitE E) s t)) ∧
+    (n < maxIter → ((bfs n E s T false maxIter).status = .OPTIMAL ↔ ∃ t ∈ T, Reach (unitE E) s t)) := by
+  have h := search_outcome (E := E) (isGoal := fun v => T.contains v) pushOK_bfs hs hE
+    (fun st => ∃ dep D, BInv E s dep D st) ⟨_, _, binv_init hs⟩
+    (fun st cur rest inv hJ hf hg => by
+      obtain ⟨dep, D, b⟩ := hJ
+      have := bfs_iter hE inv b hf hg
+      rw [bfsDiscover_eq] at this
+      exact this) maxIter
+  have hd : bfs n E s T false maxIter = searchResult .OPTIMAL false
+      (searchLoop (discW (fun fr nb => fr ++ [nb])) (succOf E) (fun v => T.contains v) maxIter (searchInit n s)) := by
+    simp only [bfs, bfsRun, bfsDiscover_eq, Bool.not_false, Bool.true_and]
+  rw [hd]
+  cases hout : searchLoop (discW (fun fr nb => fr ++ [nb])) (succOf E) (fun v => T.contains v) maxIter (searchInit n s) with
+  | found cur st' =>
+    rw [hout] at h
+    obtain ⟨st0, rest, inv, ⟨dep, D, b⟩, hf, hg, rfl⟩ := h
+    obtain ⟨p, k, hres, hk, hlen, hok⟩ := result_found .OPTIMAL inv hf hg
+    have hkd : k = dep cur :=
+      hk.unique (b.dchain cur (inv.fr_vis cur (by rw [hf]; exact List.mem_cons_self)))
+    have hlow := bfs_lower_bound inv b hf
+    obtain ⟨t, ht, _, _, _, hw⟩ := path_upper_bound hok
+    have hgd : IsGoalDist (unitE E) s T (k : Int) :=
+      ⟨⟨t, ht, hw⟩, fun t' ht' c' hw' => by rw [hkd]; exact hlow t' (by simpa using ht') c' hw'⟩
+    rw [hres]
+    refine ⟨fun _ => ⟨p, k, rfl, rfl, hlen, hok, hgd⟩, fun h => (by cases h), fun _ h => (by cases h), fun _ => ?_, fun _ => ?_⟩
+    · exact ⟨fun h => (by cases h), fun hall => absurd ⟨_, hw⟩ (hall t ht)⟩
+    · exact ⟨fun _ => ⟨t, ht, _, hw⟩, fun _ => rfl⟩
+  | exhausted st' =>
+    rw [hout] at h
+    have hun := result_exhausted h.1 h.2
+    have hun' : ∀ t ∈ T, ¬ Reach (unitE E) s t := fun t ht => hun t (by simpa using ht)
+    simp only [searchResult, Bool.false_eq_true, if_false]
+    refine ⟨fun h => (by cases h), fun _ => hun', fun _ h => (by cases h), fun _ => ⟨fun _ => hun', fun _ => (by first | rfl | trivial)⟩, fun _ => ?_⟩
+    exact ⟨fun h => (by cases h), fun ⟨t, ht, hr⟩ => absurd hr (hun' t ht)⟩
+  | cutoff st' =>
+    rw [hout] at h
+    simp only [searchResult, Bool.false_eq_true, if_false]
+    exact ⟨fun h => (by cases h), fun h => (by cases h), fun hlt => absurd hlt h.2, fun hlt => absurd hlt h.2,
+      fun hlt => absurd hlt h.2⟩
+
+example : (bfs 5 [((0 : Nat), (1 : Nat), ()), (1, 2, ()), (2, 4, ()), (0, 3, ()), (3, 4, ()), (4, 0, ())] 0 [4] false 10).status = .OPTIMAL ∧
+    (bfs 5 [((0 : Nat), (1 : Nat), ()), (1, 2, ()), (2, 4, ()), (0, 3, ()), (3, 4, ()), (4, 0, ())] 0 [4] false 10).path = some [0, 3, 4] := by
+  decide
+
+/-- C11, `goal is None` mode of `bfs` / `dfs` ("explores all reachable nodes"): the returned set is
+duplicate-free, contains the start and only nodes reachable from it, status OPTIMAL; and once
+`max_iter` exceeds the number of nodes it is exactly the set of reachable nodes. -/
+theorem search_explore_reachable (n : Nat) (E : List (Edge W)) (s : Nat) (T : List Nat) (maxIter : Nat)
+    (hs : s < n) (hE : ∀ e ∈ E, e.2.1 < n) :
+    (∀ r, r = bfs n E s T true maxIter ∨ r = dfs n E s T true maxIter →
+      r.status = .OPTIMAL ∧ r.path = none ∧ r.visited.Nodup ∧ s ∈ r.visited ∧
+      (∀ v ∈ r.visited, Reach (unitE E) s v) ∧
+      (n < maxIter → ∀ v, Reach (unitE E) s v → v ∈ r.visited)) := by
+  have key : ∀ (push : List Nat → Nat → List Nat), PushOK push → ∀ okStatus,
+      let r := searchResult okStatus true
+        (searchLoop (discW push) (succOf E) (fun _ => false) maxIter (searchInit n s))
+      r.status = .OPTIMAL ∧ r.path = none ∧ r.visited.Nodup ∧ s ∈ r.visited ∧
+      (∀ v ∈ r.visited, Reach (unitE E) s v) ∧
+      (n < maxIter → ∀ v, Reach (unitE E) s v → v ∈ r.visited) := by
+    intro push hp okStatus
+    have h := search_outcome (E := E) (isGoal := fun _ => false) hp hs hE (fun _ => True) trivial
+      (fun _ _ _ _ _ _ _ => trivial) maxIter
+    cases hout : searchLoop (discW push) (succOf E) (fun _ => false) maxIter (searchInit n s) with
+    | found cur st' =>
+      rw [hout] at h
+      obtain ⟨_, _, _, _, _, hg, _⟩ := h
+      cases hg
+    | exhausted st' =>
+      rw [hout] at h
+      obtain ⟨a, b, c, d⟩ := result_explore h.1
+      simp only [searchResult, if_true]
+      exact ⟨trivial, trivial, c, b, a, fun _ => d h.2⟩
+    | cutoff st' =>
+      rw [hout] at h
+      obtain ⟨a, b, c, _⟩ := result_explore h.1
+      simp only [searchResult, if_true]
+      exact ⟨trivial, trivial, c, b, a, fun hlt => absurd hlt h.2⟩
+  intro r hr
+  rcases hr with hr | hr
+  · subst hr
+    have := key _ pushOK_bfs .OPTIMAL
+    simpa only [bfs, bfsRun, bfsDiscover_eq, Bool.not_true, Bool.false_and] using this
+  · subst hr
+    have := key _ pushOK_dfs .FEASIBLE
+    simpa only [dfs, dfsRun, dfsDiscover_eq, Bool.not_true, Bool.false_and] using this
+
+example : (bfs 5 [((0 : Nat), (1 : Nat), ()), (1, 2, ()), (2, 0, ()), (3, 4, ())] 0 [] true 10).visited = [2, 1, 0] := by
+  decide
+
+end searches
+
+/-! ## `astar_grid`: exact arithmetic in `ℤ[√2]` -/
+
+/-- C11 (`ℤ[√2]` order embedding): the pair `(a, b)` stands for the real number `a + b·√2`, and the
+Bool comparison by squaring used by the grid model and its certificate checker is exactly the order
+of these real numbers. -/
+theorem zsqrt2_order_embedding (x y : Z2) : Z2.le x y = true ↔ x.ev ≤ y.ev := Z2.le_iff_ev x y
+
+example : Z2.le ⟨3, 0⟩ ⟨0, 3⟩ = true ∧ Z2.le ⟨0, 2⟩ ⟨3, 0⟩ = true ∧ Z2.le ⟨3, 0⟩ ⟨0, 2⟩ = false := by decide
+
+/-- C11 grid certificate: an `astar_grid` answer accepted by `distCert` over `ℤ[√2]` weights (straight
+step `(c, 0)`, diagonal step `(0, c)`) is a real grid path whose weight `cost` is, as a real number, at
+most the weight of every walk from the start to the goal. -/
+theorem grid_dist_exact_cert {E : List (Edge Z2)} {s : Nat} {T : List Nat} {pot : Tab Z2} {path : List Nat}
+    {cost : Z2} (h : distCert E s T pot path cost = true) :
+    (∃ t ∈ T, path.head? = some s ∧ path.getLast? = some t ∧ pathCost E path = some cost ∧ Walk E s t cost) ∧
+      ∀ t ∈ T, ∀ c', Walk E s t c' → cost.ev ≤ c'.ev := by
+  obtain ⟨hgd, t, ht, hh, hl, hc, hd⟩ := dist_exact_cert h
+  exact ⟨⟨t, ht, hh, hl, hc, hd.1⟩, fun t' ht' c' hw => (Z2.le_iff_ev _ _).mp (hgd.2 t' ht' c' hw)⟩
+
+example : distCert [((0 : Nat), (1 : Nat), (⟨0, 1⟩ : Z2)), (0, 2, ⟨1, 0⟩), (2, 1, ⟨1, 0⟩)] 0 [1]
+    [some ⟨0, 0⟩, some ⟨0, 1⟩, some ⟨1, 0⟩] [0, 1] ⟨0, 1⟩ = true := by decide
+
+/-- C11 grid tolerance: the Bool test the driver applies to the implementation's floating-point cost
+(converted exactly to a rational) decides `|cost − (a + b√2)/scale| ≤ tol·(1 + cost)` over the reals. -/
+theorem grid_withinTol_iff (cost : Rat) (opt : Z2) (scale : Nat) (tol : Rat) (hs : 0 < scale) :
+    withinTol cost opt scale tol = true ↔
+      |(cost : ℝ) - opt.ev / scale| ≤ (tol : ℝ) * (1 + (cost : ℝ)) := withinTol_iff cost opt scale tol hs
+
+example : withinTol ((3414213562373095 : Rat) / 1000000000000000) ⟨2, 1⟩ 1 ((1 : Rat) / 1000000000) = true ∧
+    withinTol ((3414 : Rat) / 1000) ⟨2, 1⟩ 1 ((1 : Rat) / 1000000000) = false := by decide +kernel
 
 end Solvor.Path
